@@ -7,10 +7,14 @@ cd /repo || exit 2
 if [ -n "$(git status --porcelain)" ]; then echo "/repo not clean"; exit 2; fi
 git apply /verif/seeded/$ID/patch.diff || { echo "apply failed"; exit 2; }
 cd /verif
+# evidence written while a mutant is applied must not replace the unchanged tree's evidence
+rm -rf /verif/target/evidence.keep; cp -r /verif/evidence /verif/target/evidence.keep
 touch /tmp/.try_mutant_stamp
 ./check $PROP "$@" > /verif/seeded/$ID/check_$PROP.log 2>&1
 RC=$?
 git -C /repo checkout -- .
+mkdir -p /verif/seeded/$ID/evidence; cp /verif/evidence/$PROP.json /verif/seeded/$ID/evidence/ 2>/dev/null
+rm -rf /verif/evidence; mv /verif/target/evidence.keep /verif/evidence
 # replay files written while the mutant was applied belong to the mutant, not to the tree
 mkdir -p /verif/seeded/$ID/replays
 find /verif/replays -name '*.json' -newer /tmp/.try_mutant_stamp -exec mv {} /verif/seeded/$ID/replays/ \;
